@@ -1639,6 +1639,12 @@ int QSexact_solver (mpq_QSdata * p_mpq,
 		}
 		else
 		{
+			if (basis)
+			{
+				/* the basis of the previous level is not going to be used */
+				mpf_QSfree_basis (basis);
+				basis = 0;
+			}
 			if(p_mpf->basis)
 			{
 				mpf_ILLlp_basis_free(p_mpf->basis);
